@@ -4,10 +4,16 @@ package cache
 // TestVProtoCacheSeq (mode B): seeded random op sequences on a real one-shard
 // cache with a capacity of a few values; after EVERY op the driver Peeks every
 // key, reads Value.refs() of every value it holds, Cache.Size()/MaxSize(), and
-// logs them.  TestVProtoCacheRS (mode C): TLC-generated schedules of
-// Arrive/ReadOK/ReadErr forced onto real GetWithReadHandle callers; the block
-// read (the time between obtaining a valid ReadHandle and SetReadValue /
-// SetReadError) is the gate.  TLC (CacheTrace.tla) judges both.
+// logs them.  The sequences include the read-turn protocol: a caller that got a
+// valid ReadHandle may keep the turn over any number of later ops before it calls
+// SetReadValue / SetReadError, and meanwhile other callers ask for the same block
+// with a context that is already cancelled (they must come back with the
+// context's error), followed by Delete / EvictFile / Set of that block.
+// TestVProtoCacheRS (mode C): TLC-generated schedules of
+// Arrive/ReadOK/ReadErr/Cancel (a waiter's context is cancelled)/Delete forced
+// onto real GetWithReadHandle callers; the block read (the time between
+// obtaining a valid ReadHandle and SetReadValue / SetReadError) is the gate.
+// TLC (CacheTrace.tla) judges both.
 
 import (
 	"bufio"
@@ -64,6 +70,11 @@ type vProtoCaSeq struct {
 	hits    int
 	evicted int
 	prev    [vProtoCaMaxK]int
+	pend    map[int]ReadHandle // key -> read turn obtained and not yet resolved
+	focus   int                // key of the most recent read-handle op, 0 = none
+	// stats
+	rhTurnsKept, rhCancelledWaits, rhCancelledOther, rhResolvedLate, rhAfterInvalidate, rhCancelIssued int
+	invalidated                                                                                        map[int]bool // keys invalidated since a cancelled wait
 }
 
 func (s *vProtoCaSeq) observe(ev map[string]any) {
@@ -131,9 +142,11 @@ func TestVProtoCacheSeq(t *testing.T) {
 	}
 	w := bufio.NewWriterSize(f, 1<<20)
 	events, hits, evicted := 0, 0, 0
+	turnsKept, cancelledWaits, cancelledOther, resolvedLate, afterInval, cancelIssued := 0, 0, 0, 0, 0, 0
 	for q := 0; q < seqs; q++ {
 		rng := rand.New(rand.NewPCG(uint64(seed), uint64(q)))
-		s := &vProtoCaSeq{c: NewWithShards(int64(3000+1000*(q%3)), 1), held: map[int][]*Value{}, nextID: 1, w: w}
+		s := &vProtoCaSeq{c: NewWithShards(int64(3000+1000*(q%3)), 1), held: map[int][]*Value{}, nextID: 1, w: w,
+			pend: map[int]ReadHandle{}, invalidated: map[int]bool{}}
 		s.observe(map[string]any{"op": "newcache", "seq": q})
 		openH := func() {
 			if s.opened < 4 {
@@ -163,19 +176,51 @@ func TestVProtoCacheSeq(t *testing.T) {
 			}
 			hi := lv[rng.IntN(len(lv))]
 			si := rng.IntN(3)
+			// locality: half of the ops go to the block of the most recent read-handle op
+			if s.focus != 0 && s.h[(s.focus-1)/3] != nil && rng.IntN(2) == 0 {
+				hi, si = (s.focus-1)/3, (s.focus-1)%3
+			}
 			fo := vProtoCaSlots[si]
 			k := hi*3 + si + 1
 			h := s.h[hi]
+			// resolve the read turn held for key kk: SetReadValue (3 of 4) or SetReadError
+			resolve := func(kk int, forceErr bool) {
+				rh := s.pend[kk]
+				delete(s.pend, kk)
+				if forceErr || rng.IntN(4) == 0 {
+					rh.SetReadError(errors.New("verif: injected read error"))
+					s.observe(map[string]any{"op": "rherr", "k": kk})
+				} else {
+					id := s.nextID
+					s.nextID++
+					vsz := 700 + rng.IntN(900)
+					v := vProtoCaAlloc(id, vsz)
+					rh.SetReadValue(v)
+					s.held[id] = append(s.held[id], v)
+					s.observe(map[string]any{"op": "rhset", "k": kk, "id": id, "vsize": vsz})
+				}
+			}
+			pendKeys := func() []int {
+				var ks []int
+				for kk := range s.pend {
+					ks = append(ks, kk)
+				}
+				sort.Ints(ks)
+				return ks
+			}
 			switch x := rng.IntN(100); {
-			case x < 26: // Set
+			case x < 24: // Set
 				id := s.nextID
 				s.nextID++
 				vsz := 700 + rng.IntN(900)
 				v := vProtoCaAlloc(id, vsz)
 				h.Set(base.DiskFileNum(fo[0]), fo[1], v)
 				v.Release()
+				if s.invalidated[k] {
+					delete(s.invalidated, k)
+				}
 				s.observe(map[string]any{"op": "set", "k": k, "id": id, "vsize": vsz})
-			case x < 52: // Get (keep the reference)
+			case x < 46: // Get (keep the reference)
 				res := 0
 				if v := h.Get(base.DiskFileNum(fo[0]), fo[1], base.MakeLevel(0), CategorySSTableData); v != nil {
 					res = vProtoCaID(v)
@@ -183,7 +228,7 @@ func TestVProtoCacheSeq(t *testing.T) {
 					s.hits++
 				}
 				s.observe(map[string]any{"op": "get", "k": k, "res": res})
-			case x < 66: // release one held reference
+			case x < 58: // release one held reference
 				var ids []int
 				for id, vs := range s.held {
 					if len(vs) > 0 {
@@ -199,66 +244,105 @@ func TestVProtoCacheSeq(t *testing.T) {
 				vs[len(vs)-1].Release()
 				s.held[id] = vs[:len(vs)-1]
 				s.observe(map[string]any{"op": "rel", "id": id})
-			case x < 74:
+			case x < 66:
 				h.Delete(base.DiskFileNum(fo[0]), fo[1])
+				if _, ok := s.invalidated[k]; ok {
+					s.invalidated[k] = true
+				}
 				s.observe(map[string]any{"op": "del", "k": k})
-			case x < 80:
+			case x < 72:
 				h.EvictFile(base.DiskFileNum(fo[0]))
 				ks := []int{}
 				for sj, fo2 := range vProtoCaSlots {
 					if fo2[0] == fo[0] {
 						ks = append(ks, hi*3+sj+1)
+						if _, ok := s.invalidated[hi*3+sj+1]; ok {
+							s.invalidated[hi*3+sj+1] = true
+						}
 					}
 				}
 				s.observe(map[string]any{"op": "evictfile", "ks": ks})
-			case x < 84: // close the handle after evicting its files, as the file cache does
+			case x < 75: // close the handle after evicting its files, as the file cache does
 				// (entries of a closed handle cannot be observed through the API, so they are evicted first to keep
-				// the logged refcounts exact)
+				// the logged refcounts exact); read turns still held on the handle are given up first
+				for _, kk := range pendKeys() {
+					if (kk-1)/3 == hi {
+						resolve(kk, true)
+					}
+				}
 				h.EvictFile(1)
 				h.EvictFile(2)
 				h.Close()
 				s.h[hi] = nil
 				s.observe(map[string]any{"op": "closeh", "ks": []int{hi*3 + 1, hi*3 + 2, hi*3 + 3}})
-			case x < 88:
+			case x < 79:
 				openH()
-			case x < 91:
+			case x < 82:
 				if len(s.resv) < 2 {
 					s.resv = append(s.resv, s.c.Reserve(500+rng.IntN(1500)))
 					s.observe(map[string]any{"op": "reserve"})
 				}
-			case x < 94:
+			case x < 85:
 				if len(s.resv) > 0 {
 					s.resv[len(s.resv)-1]()
 					s.resv = s.resv[:len(s.resv)-1]
 					s.observe(map[string]any{"op": "unreserve"})
 				}
-			default: // sequential GetWithReadHandle
-				cv, rh, _, _, _, err := h.GetWithReadHandle(context.Background(), base.DiskFileNum(fo[0]), fo[1], base.MakeLevel(0), CategorySSTableData)
-				if err != nil {
-					panic(err)
+			case x < 91 && len(s.pend) > 0: // the holder of a read turn finishes its read
+				ks := pendKeys()
+				kk := ks[rng.IntN(len(ks))]
+				s.rhResolvedLate++
+				s.focus = kk
+				resolve(kk, false)
+			default: // GetWithReadHandle
+				// While a read turn is held for this block, a caller with a live context would wait for it: such callers
+				// come with a context that is already cancelled (also 1 in 4 of the others: the context then plays no role).
+				_, turnHeld := s.pend[k]
+				cancelled := turnHeld || rng.IntN(4) == 0
+				ctx := context.Background()
+				if cancelled {
+					c2, cancel := context.WithCancel(ctx)
+					cancel()
+					ctx = c2
 				}
+				if turnHeld {
+					s.rhCancelIssued++
+				}
+				cv, rh, _, _, _, err := h.GetWithReadHandle(ctx, base.DiskFileNum(fo[0]), fo[1], base.MakeLevel(0), CategorySSTableData)
 				res := 0
 				if cv != nil {
 					res = vProtoCaID(cv)
 					s.held[res] = append(s.held[res], cv)
 					s.hits++
 				}
-				s.observe(map[string]any{"op": "rhget", "k": k, "res": res, "turn": rh.Valid()})
-				if rh.Valid() {
-					if rng.IntN(4) == 0 {
-						rh.SetReadError(errors.New("verif: injected read error"))
-						s.observe(map[string]any{"op": "rherr", "k": k})
+				if err != nil {
+					if turnHeld {
+						s.rhCancelledWaits++
+						s.invalidated[k] = false
 					} else {
-						id := s.nextID
-						s.nextID++
-						vsz := 700 + rng.IntN(900)
-						v := vProtoCaAlloc(id, vsz)
-						rh.SetReadValue(v)
-						s.held[id] = append(s.held[id], v)
-						s.observe(map[string]any{"op": "rhset", "k": k, "id": id, "vsize": vsz})
+						s.rhCancelledOther++
+					}
+				}
+				if s.invalidated[k] {
+					s.rhAfterInvalidate++
+					delete(s.invalidated, k)
+				}
+				s.focus = k
+				s.observe(map[string]any{"op": "rhget", "k": k, "res": res, "turn": rh.Valid(), "cancelled": cancelled, "err": err != nil})
+				if rh.Valid() {
+					s.pend[k] = rh
+					if rng.IntN(2) == 0 {
+						resolve(k, false)
+					} else {
+						s.rhTurnsKept++
 					}
 				}
 			}
+		}
+		// give up the read turns still held
+		for kk, rh := range s.pend {
+			rh.SetReadError(errors.New("verif: end of sequence"))
+			delete(s.pend, kk)
 		}
 		// clean up: release everything
 		for id, vs := range s.held {
@@ -280,10 +364,18 @@ func TestVProtoCacheSeq(t *testing.T) {
 		events += s.events
 		hits += s.hits
 		evicted += s.evicted
+		turnsKept += s.rhTurnsKept
+		cancelledWaits += s.rhCancelledWaits
+		cancelledOther += s.rhCancelledOther
+		resolvedLate += s.rhResolvedLate
+		afterInval += s.rhAfterInvalidate
+		cancelIssued += s.rhCancelIssued
 	}
 	w.Flush()
 	f.Close()
-	st, _ := json.Marshal(map[string]any{"seq_sequences": seqs, "seq_events": events, "seq_hits": hits, "seq_evictions_observed": evicted})
+	st, _ := json.Marshal(map[string]any{"seq_sequences": seqs, "seq_events": events, "seq_hits": hits, "seq_evictions_observed": evicted,
+		"seq_read_turns_kept": turnsKept, "seq_cancelled_ctx_while_turn_held": cancelIssued, "seq_cancelled_waits": cancelledWaits, "seq_cancelled_ctx_errors_without_wait": cancelledOther,
+		"seq_read_turns_resolved_later": resolvedLate, "seq_rhget_after_cancelled_wait_and_invalidation": afterInval})
 	fmt.Printf("DRIVER-STATS %s\n", st)
 	fmt.Printf("DRIVER-DONE\n")
 }
@@ -309,7 +401,8 @@ type vProtoCaRS struct {
 	valueID int // id set by a successful read (then new arrivals hit)
 	nextID  int
 	w       *bufio.Writer
-	label   map[int]int // goroutine number -> reader label used in the log (waiters are interchangeable, see relabel)
+	label   map[int]int                // goroutine number -> reader label used in the log (waiters are interchangeable, see relabel)
+	cancel  map[int]context.CancelFunc // goroutine number -> cancels that caller's context
 }
 
 // relabel: which of several blocked waiters takes the turn after a failed read is the runtime's choice, while the
@@ -355,8 +448,10 @@ func (s *vProtoCaRS) blocked() []int {
 func (s *vProtoCaRS) start(r int) {
 	s.started[r] = true
 	s.label[r] = r
+	ctx, cancel := context.WithCancel(context.Background())
+	s.cancel[r] = cancel
 	go func() {
-		cv, rh, _, _, _, err := s.h.GetWithReadHandle(context.Background(), 1, 0, base.MakeLevel(0), CategorySSTableData)
+		cv, rh, _, _, _, err := s.h.GetWithReadHandle(ctx, 1, 0, base.MakeLevel(0), CategorySSTableData)
 		switch {
 		case err != nil:
 			s.ev <- vProtoCaRSEvent{r: r, code: -3}
@@ -424,7 +519,7 @@ func (s *vProtoCaRS) waitBlocked(n int) {
 	}
 }
 
-func (s *vProtoCaRS) step(act string, r int, nextTurn int) bool {
+func (s *vProtoCaRS) step(act string, r int, nextTurn int, notTurn map[int]bool) bool {
 	switch act {
 	case "Arrive":
 		if s.started[r] {
@@ -471,10 +566,35 @@ func (s *vProtoCaRS) step(act string, r int, nextTurn int) bool {
 			want = 1
 		}
 		rets := append([][2]int{{r, -1}}, s.collect(want, 2*time.Second)...)
+		if nextTurn == 0 && notTurn[s.turn] {
+			// the schedule cancels the wait of the reader that really got the turn: it means one of the other waiters
+			for _, b := range s.blocked() {
+				if !notTurn[b] {
+					nextTurn = b
+					break
+				}
+			}
+		}
 		if nextTurn != 0 {
 			s.relabel(nextTurn)
 		}
 		s.emit(map[string]any{"op": "readerr", "r": r, "rets": rets, "turn": s.turn, "blocked": s.blocked()})
+	case "Cancel": // the context of the blocked caller labelled r is cancelled
+		if !s.started[r] || s.done[r] || s.turn == r {
+			return false
+		}
+		for g, l := range s.label {
+			if l == r {
+				s.cancel[g]()
+			}
+		}
+		rets := s.collect(1, 2*time.Second)
+		s.emit(map[string]any{"op": "cancel", "r": r, "rets": rets, "turn": s.turn, "blocked": s.blocked()})
+	case "Delete": // the block is invalidated
+		s.h.Delete(1, 0)
+		s.valueID = 0
+		rets := s.collect(0, 0)
+		s.emit(map[string]any{"op": "rdel", "rets": rets, "turn": s.turn, "blocked": s.blocked()})
 	default:
 		return false
 	}
@@ -508,23 +628,28 @@ func TestVProtoCacheRS(t *testing.T) {
 			t.Fatal(err)
 		}
 		c := NewWithShards(1<<20, 1)
-		s := &vProtoCaRS{c: c, h: c.NewHandle(), ev: make(chan vProtoCaRSEvent, 16), started: map[int]bool{}, done: map[int]bool{}, nextID: 1, w: w, label: map[int]int{}}
+		s := &vProtoCaRS{c: c, h: c.NewHandle(), ev: make(chan vProtoCaRSEvent, 16), started: map[int]bool{}, done: map[int]bool{}, nextID: 1, w: w, label: map[int]int{}, cancel: map[int]context.CancelFunc{}}
 		s.emit(map[string]any{"op": "rstart", "readers": readers, "id": n})
 		ok := true
 		for i, st := range sched {
 			act, _ := st[0].(string)
 			r := int(st[1].(float64))
-			if act != "Arrive" && act != "ReadOK" && act != "ReadErr" {
+			if act != "Arrive" && act != "ReadOK" && act != "ReadErr" && act != "Cancel" && act != "Delete" {
 				continue
 			}
 			nextTurn := 0 // the reader the schedule names as the next turn holder
+			notTurn := map[int]bool{}
 			for _, st2 := range sched[i+1:] {
-				if a2, _ := st2[0].(string); a2 == "ReadOK" || a2 == "ReadErr" {
+				a2, _ := st2[0].(string)
+				if a2 == "ReadOK" || a2 == "ReadErr" {
 					nextTurn = int(st2[1].(float64))
 					break
 				}
+				if a2 == "Cancel" { // a reader whose wait is cancelled next is not the turn holder
+					notTurn[int(st2[1].(float64))] = true
+				}
 			}
-			if !s.step(act, r, nextTurn) {
+			if !s.step(act, r, nextTurn, notTurn) {
 				s.emit(map[string]any{"op": "nofollow", "r": r, "want": act})
 				ok = false
 				break
@@ -550,6 +675,9 @@ func TestVProtoCacheRS(t *testing.T) {
 		if s.turn == 0 && len(s.blocked()) == 0 {
 			s.h.Close()
 			c.Unref()
+		}
+		for _, cf := range s.cancel {
+			cf()
 		}
 		n++
 		if ok {
